@@ -5,6 +5,7 @@
 import SugarModel.Lemmas.PersistLemmas
 import SugarModel.Lemmas.Kv
 import SugarModel.Lemmas.RestoreLemmas
+import SugarModel.Lemmas.Frame
 namespace Sugar.Persist
 open Sugar
 
@@ -13,72 +14,18 @@ theorem handleSet_run (c : Ctx) (s : State) (n k v : Bytes) (hm : c.cfg.maxMemor
   obtain ⟨hs1, _, _⟩ := setValues_single c s k (.str v) hm
   simp [handleSet, getSetCommandOptions, adaptOr, hv, Adapted.toVal?, setOrErr, hs1, b_XX_ne_nil, b_NX_ne_nil]
 
-theorem replay_set (now : Int) (k v : Bytes) (rest : List LogItem) (s : State)
-    (hv : adaptType v = .str v)
-    (hi : ∀ x ∈ [k, v], ∀ xs e, s.lookup 0 x ≠ some ⟨.ilist xs, e⟩) :
-    replay now (.cmd [b "SET", k, v] :: rest) s =
-      replay now rest (setValues { db := 0, now := now, conn := some 0 } s [(k, .str v)]).1 := by
-  have h1 : eqFold (b "SET") (b "select") = false := by decide
-  have h2 : handlerOf (b "SET") = some handleSet := by rfl
-  have h3 : isAscii (b "SET") = true := by decide
-  have hrun := handleSet_run { db := 0, now := now, conn := some 0 } s (b "SET") k v rfl hv
-  rw [replay]
-  · simp only [List.headD_cons, h1, Bool.false_and, Bool.false_eq_true, if_false, List.drop_succ_cons, List.drop_zero]
-    split
-    · rename_i hany
-      exfalso
-      rw [List.any_eq_true] at hany
-      obtain ⟨x, hx, hm⟩ := hany
-      split at hm
-      · rename_i xs e heq
-        exact hi x hx xs e heq
-      · simp at hm
-    · simp only [step, progOf, h3, Bool.not_true, Bool.false_eq_true, if_false, h2, Option.map_some, hrun]
-  · intro hnil; simp at hnil
-
-/-- the text last written to `x` by a sequence of `SET key value` commands -/
-def lastWrite (kvs : List (Bytes × Bytes)) (m : Bytes → Option Bytes) : Bytes → Option Bytes :=
-  kvs.foldl (fun m kv => fun x => if kv.1 = x then some kv.2 else m x) m
-
-theorem replay_sets (now : Int) : ∀ (kvs : List (Bytes × Bytes)) (s : State) (m : Bytes → Option Bytes),
-    (∀ kv ∈ kvs, adaptType kv.2 = .str kv.2) →
-    (∀ x, s.lookup 0 x = (m x).map fun v => ⟨.str v, none⟩) →
-    ∃ s', replay now (kvs.map fun kv => .cmd [b "SET", kv.1, kv.2]) s = .ok s' ∧
-      ∀ x, s'.lookup 0 x = (lastWrite kvs m x).map fun v => ⟨.str v, none⟩ := by
-  intro kvs
-  induction kvs with
-  | nil => intro s m _ hr; exact ⟨s, rfl, hr⟩
-  | cons kv r ih =>
-    intro s m hv hr
-    obtain ⟨k, v⟩ := kv
-    have hv1 : adaptType v = .str v := hv (k, v) List.mem_cons_self
-    have hi : ∀ x ∈ [k, v], ∀ xs e, s.lookup 0 x ≠ some ⟨.ilist xs, e⟩ := by
-      intro x _ xs e h
-      rw [hr x] at h
-      cases hm : m x <;> simp [hm] at h
-    simp only [List.map_cons]
-    rw [replay_set now k v _ s hv1 hi]
-    obtain ⟨_, hs2, hs3⟩ := setValues_single { db := 0, now := now, conn := some 0 } s k (.str v) rfl
-    apply ih _ (fun x => if k = x then some v else m x) (fun kv h => hv kv (List.mem_cons_of_mem _ h))
-    intro x
-    by_cases hx : k = x
-    · subst hx
-      simp only [if_true, Option.map_some]
-      rw [hs2, hr k]
-      cases m k <;> rfl
-    · simp only [hx, if_false]
-      rw [hs3 x hx, hr x]
-
-
 /-- one replayed record that is not SELECT, touches no `[]interface{}` key and completes: the replay
-    continues from the state the command left, executed on database 0 at the restore-time clock -/
-theorem replay_cmd_done (now : Int) (name : Bytes) (args : List Bytes) (rest : List LogItem) (s s1 : State) (r : Res)
+    continues in the same database from the state the command left, executed in the current database
+    `d` at the restore-time clock -/
+theorem replay_cmd_done (now : Int) (d : Nat) (name : Bytes) (args : List Bytes) (rest : List LogItem) (s s1 : State) (r : Res)
     (hsel : (eqFold name (b "select") && isAscii name) = false)
-    (hi : ∀ x ∈ args, ∀ xs e, s.lookup 0 x ≠ some ⟨.ilist xs, e⟩)
-    (hstep : step { db := 0, now := now, conn := some 0 } s (name :: args) = some (s1, .done r)) :
-    replay now (.cmd (name :: args) :: rest) s = replay now rest s1 := by
+    (hi : ∀ x ∈ args, ∀ xs e, s.lookup d x ≠ some ⟨.ilist xs, e⟩)
+    (hstep : step { db := d, now := now, conn := some 0 } s (name :: args) = some (s1, .done r)) :
+    replay now (d : Int) (.cmd (name :: args) :: rest) s = replay now (d : Int) rest s1 := by
+  have hneg : ¬ ((d : Int) < 0) := by omega
   rw [replay]
-  · simp only [List.headD_cons, hsel, Bool.false_eq_true, if_false, List.drop_succ_cons, List.drop_zero]
+  · simp only [List.headD_cons, hsel, Bool.false_eq_true, if_false, List.drop_succ_cons, List.drop_zero, hneg,
+      Int.toNat_natCast]
     split
     · rename_i hany
       exfalso
@@ -90,6 +37,60 @@ theorem replay_cmd_done (now : Int) (name : Bytes) (args : List Bytes) (rest : L
       · simp at hm
     · simp only [hstep]
   · intro hnil; simp at hnil
+
+/-- replay of `SET k v` (string value) in database `d` -/
+theorem replay_set (now : Int) (d : Nat) (k v : Bytes) (rest : List LogItem) (s : State)
+    (hv : adaptType v = .str v)
+    (hi : ∀ x ∈ [k, v], ∀ xs e, s.lookup d x ≠ some ⟨.ilist xs, e⟩) :
+    replay now (d : Int) (.cmd [b "SET", k, v] :: rest) s =
+      replay now (d : Int) rest (setValues { db := d, now := now, conn := some 0 } s [(k, .str v)]).1 := by
+  have h1 : (eqFold (b "SET") (b "select") && isAscii (b "SET")) = false := by decide
+  have h2 : handlerOf (b "SET") = some handleSet := by rfl
+  have h3 : isAscii (b "SET") = true := by decide
+  have hrun := handleSet_run { db := d, now := now, conn := some 0 } s (b "SET") k v rfl hv
+  apply replay_cmd_done now d (b "SET") [k, v] rest s _ (.ok okReply) h1 hi
+  simp only [step, progOf, h3, Bool.not_true, Bool.false_eq_true, if_false, h2, Option.map_some, hrun]
+
+/-- the text last written to `x` by a sequence of `SET key value` commands -/
+def lastWrite (kvs : List (Bytes × Bytes)) (m : Bytes → Option Bytes) : Bytes → Option Bytes :=
+  kvs.foldl (fun m kv => fun x => if kv.1 = x then some kv.2 else m x) m
+
+/-- replay of a sequence of string SETs in database `d`: every key of `d` holds the text last written
+    to it, every other database is as before -/
+theorem replay_sets (now : Int) (d : Nat) : ∀ (kvs : List (Bytes × Bytes)) (s : State) (m : Bytes → Option Bytes),
+    (∀ kv ∈ kvs, adaptType kv.2 = .str kv.2) →
+    (∀ x, s.lookup d x = (m x).map fun v => ⟨.str v, none⟩) →
+    ∃ s', replay now (d : Int) (kvs.map fun kv => .cmd [b "SET", kv.1, kv.2]) s = .ok s' ∧
+      (∀ x, s'.lookup d x = (lastWrite kvs m x).map fun v => ⟨.str v, none⟩) ∧
+      (∀ j, j ≠ d → s'.db j = s.db j) := by
+  intro kvs
+  induction kvs with
+  | nil => intro s m _ hr; exact ⟨s, by simp [replay], hr, fun _ _ => rfl⟩
+  | cons kv r ih =>
+    intro s m hv hr
+    obtain ⟨k, v⟩ := kv
+    have hv1 : adaptType v = .str v := hv (k, v) List.mem_cons_self
+    have hi : ∀ x ∈ [k, v], ∀ xs e, s.lookup d x ≠ some ⟨.ilist xs, e⟩ := by
+      intro x _ xs e h
+      rw [hr x] at h
+      cases hm : m x <;> simp [hm] at h
+    simp only [List.map_cons]
+    rw [replay_set now d k v _ s hv1 hi]
+    obtain ⟨_, hs2, hs3⟩ := setValues_single { db := d, now := now, conn := some 0 } s k (.str v) rfl
+    obtain ⟨s', g1, g2, g3⟩ := ih (setValues { db := d, now := now, conn := some 0 } s [(k, .str v)]).1
+      (fun x => if k = x then some v else m x) (fun kv h => hv kv (List.mem_cons_of_mem _ h)) (by
+        intro x
+        by_cases hx : k = x
+        · subst hx
+          simp only [if_true, Option.map_some]
+          rw [hs2, hr k]
+          cases m k <;> rfl
+        · simp only [hx, if_false]
+          rw [hs3 x hx, hr x])
+    refine ⟨s', g1, g2, ?_⟩
+    intro j hj
+    rw [g3 j hj]
+    exact db_of_get_eq _ _ _ (setValues_frame { db := d, now := now, conn := some 0 } s _ j hj)
 
 /-- the SET option parser on `PX n` -/
 theorem opts_px (now : Int) (arg : Bytes) (n : Int) (hp : parseInt64 arg = some n) (hn : n.natAbs ≤ 4000000000000) :
@@ -120,20 +121,20 @@ theorem handleSet_px_run (c : Ctx) (s : State) (n0 k v arg : Bytes) (n : Int) (h
   simp [handleSet, opts_px c.now arg n hp hn, adaptOr, hv, Adapted.toVal?, setOrErr, hs1, b_XX_ne_nil, b_NX_ne_nil,
     run_setExpiry_some _ _ _ _ _ _ _ he, hl]
 
-/-- replay of `SET k v PX n` on the empty keyspace at restore time `now`: the key holds `v` with the
-    deadline `now + n` — counted from the restart, not from the original write -/
-theorem replay_set_px (now : Int) (k v arg : Bytes) (n : Int) (hv : adaptType v = .str v)
+/-- replay of `SET k v PX n` in database `d` of the empty keyspace at restore time `now`: the key holds
+    `v` with the deadline `now + n` — counted from the restart, not from the original write -/
+theorem replay_set_px (now : Int) (d : Nat) (k v arg : Bytes) (n : Int) (hv : adaptType v = .str v)
     (hp : parseInt64 arg = some n) (hn : n.natAbs ≤ 4000000000000) :
-    ∃ s', replay now [.cmd [b "SET", k, v, b "PX", arg]] { dbs := [], mem := 0 } = .ok s' ∧
-      s'.lookup 0 k = some ⟨.str v, some (now + n)⟩ := by
-  obtain ⟨s', h1, h2, h3⟩ := handleSet_px_run { db := 0, now := now, conn := some 0 } { dbs := [], mem := 0 }
+    ∃ s', replay now (d : Int) [.cmd [b "SET", k, v, b "PX", arg]] { dbs := [], mem := 0 } = .ok s' ∧
+      s'.lookup d k = some ⟨.str v, some (now + n)⟩ := by
+  obtain ⟨s', h1, h2, h3⟩ := handleSet_px_run { db := d, now := now, conn := some 0 } { dbs := [], mem := 0 }
     (b "SET") k v arg n rfl hv hp hn
   have hsel : (eqFold (b "SET") (b "select") && isAscii (b "SET")) = false := by decide
   have hh : handlerOf (b "SET") = some handleSet := by rfl
   have ha : isAscii (b "SET") = true := by decide
   refine ⟨s', ?_, h3⟩
-  rw [replay_cmd_done now (b "SET") [k, v, b "PX", arg] [] _ s' (.ok okReply) hsel (fun _ _ _ _ h => by simp [State.lookup, State.db, NMap.get] at h)]
-  · rfl
+  rw [replay_cmd_done now d (b "SET") [k, v, b "PX", arg] [] _ s' (.ok okReply) hsel (fun _ _ _ _ h => by simp [State.lookup, State.db, NMap.get] at h)]
+  · simp [replay]
   · simp only [step, progOf, ha, Bool.not_true, Bool.false_eq_true, if_false, hh, Option.map_some, Option.some.injEq]
     rw [← h1, ← h2]
 
